@@ -58,19 +58,30 @@ package logf
 //@   let k11 = decStrK(src, q10, 10, false, d0)
 //@   let q11 = (k11 == 0 ? decStrP(src, q10, 10, d0) : seekP(src, q10, 10, d0))
 //@   let ok11 = ok10 && (k11 == 0 || (k11 == 1 && (seekK(src, q10, 10, d0) == 2 || (seekK(src, q10, 10, d0) == 1 && seekCanon(src, q10, 10, d0)))))
-//@   opaque [C04] *
+//@   opaque [C04,C06] *
 //@   perreturn
 //@   ensures [C04] (ok1 && err == nil) ==> st.Appname == (k1 == 0 ? decStrV(src, q0, 0, d0) : old(st.Appname))
+//@   ensures [C06] (k1 == 2) ==> err != nil
 //@   ensures [C04] (ok2 && err == nil) ==> st.Servername == (k2 == 0 ? decStrV(src, q1, 1, d0) : old(st.Servername))
+//@   ensures [C06] (ok1 && k2 == 2) ==> err != nil
 //@   ensures [C04] (ok3 && err == nil) ==> st.SFilename == (k3 == 0 ? decStrV(src, q2, 2, d0) : old(st.SFilename))
+//@   ensures [C06] (ok2 && k3 == 2) ==> err != nil
 //@   ensures [C04] (ok4 && err == nil) ==> st.SFormat == (k4 == 0 ? decStrV(src, q3, 3, d0) : old(st.SFormat))
+//@   ensures [C06] (ok3 && k4 == 2) ==> err != nil
 //@   ensures [C04] (ok5 && err == nil) ==> st.Setdivision == (k5 == 0 ? decStrV(src, q4, 4, d0) : old(st.Setdivision))
+//@   ensures [C06] (ok4 && k5 == 2) ==> err != nil
 //@   ensures [C04] (ok6 && err == nil) ==> st.BHasSufix == (k6 == 0 ? (decIntV(src, q5, 5, d0) != 0) : true)
+//@   ensures [C06] (ok5 && k6 == 2) ==> err != nil
 //@   ensures [C04] (ok7 && err == nil) ==> st.BHasAppNamePrefix == (k7 == 0 ? (decIntV(src, q6, 6, d0) != 0) : true)
+//@   ensures [C06] (ok6 && k7 == 2) ==> err != nil
 //@   ensures [C04] (ok8 && err == nil) ==> st.BHasSquareBracket == (k8 == 0 ? (decIntV(src, q7, 7, d0) != 0) : false)
+//@   ensures [C06] (ok7 && k8 == 2) ==> err != nil
 //@   ensures [C04] (ok9 && err == nil) ==> st.SConcatStr == (k9 == 0 ? decStrV(src, q8, 8, d0) : "_")
+//@   ensures [C06] (ok8 && k9 == 2) ==> err != nil
 //@   ensures [C04] (ok10 && err == nil) ==> st.SSepar == (k10 == 0 ? decStrV(src, q9, 9, d0) : "|")
+//@   ensures [C06] (ok9 && k10 == 2) ==> err != nil
 //@   ensures [C04] (ok11 && err == nil) ==> st.SLogType == (k11 == 0 ? decStrV(src, q10, 10, d0) : "")
+//@   ensures [C06] (ok10 && k11 == 2) ==> err != nil
 //@   ensures [C04] ok11 ==> (err == nil && readBuf.buf.i == q11)
 //@   safety [C05]
 //
@@ -103,4 +114,25 @@ package logf
 //@   perreturn
 //@   modifies buf.buf.bytes
 //@   ensures [C03] err == nil && buf.buf.bytes == pre
+//@   safety [C03]
+//
+//@ func (*LogInfo).WriteBlock
+//@   requires st != nil && validB(buf) && len(st.Appname) < 4294967296 && len(st.Servername) < 4294967296 && len(st.SFilename) < 4294967296 && len(st.SFormat) < 4294967296 && len(st.Setdivision) < 4294967296 && len(st.SConcatStr) < 4294967296 && len(st.SSepar) < 4294967296 && len(st.SLogType) < 4294967296
+//@   let e0 = buf.buf.bytes ++ head(StructBegin, tag)
+//@   let e1 = e0 ++ encString(0, st.Appname)
+//@   let e2 = e1 ++ encString(1, st.Servername)
+//@   let e3 = e2 ++ encString(2, st.SFilename)
+//@   let e4 = e3 ++ encString(3, st.SFormat)
+//@   let e5 = (st.Setdivision != "" ? e4 ++ encString(4, st.Setdivision) : e4)
+//@   let e6 = (st.BHasSufix != true ? e5 ++ encBool(5, st.BHasSufix) : e5)
+//@   let e7 = (st.BHasAppNamePrefix != true ? e6 ++ encBool(6, st.BHasAppNamePrefix) : e6)
+//@   let e8 = (st.BHasSquareBracket != false ? e7 ++ encBool(7, st.BHasSquareBracket) : e7)
+//@   let e9 = (st.SConcatStr != "_" ? e8 ++ encString(8, st.SConcatStr) : e8)
+//@   let e10 = (st.SSepar != "|" ? e9 ++ encString(9, st.SSepar) : e9)
+//@   let e11 = (st.SLogType != "" ? e10 ++ encString(10, st.SLogType) : e10)
+//@   let pre = e11 ++ head(StructEnd, 0)
+//@   opaque head encInt8 encInt16 encInt32 encInt64 encString encBool
+//@   perreturn
+//@   modifies buf.buf.bytes
+//@   ensures [C03] result == nil && buf.buf.bytes == pre
 //@   safety [C03]
